@@ -138,6 +138,9 @@ def run(ck, tier, seed):
     ck.expect_model_ok("byte-strings", r)
     step = 1 if not quick else 3
     bcases = [{"id": i, "bytes": list(c10.apply_mut(bases[m["id"]], m["m"]))} for i, m in enumerate(muts[::step])]
+    # byte strings in which a BOM is not the first thing in the file (fixed 0708b2f: removing what precedes it moved it to the start)
+    for hb in HAND_BYTES:
+        bcases.append({"id": len(bcases), "bytes": list(hb)})
     obs = feed(bcases)
     for c in bcases:
         o = obs[c["id"]]
@@ -153,6 +156,18 @@ def run(ck, tier, seed):
             judge(ck, c, o, seen, "bytes", ["field", "variable", "path-param"] if any(k in o for k in ("expanded_tree", "roundtrip_tree")) and kw_in_text(bytes(c["bytes"]).decode("utf-8", "replace")) else [])
     ck.cov["traces_validated_against_impl"] += len(bcases)
     ck.cov["rule"] = "fmt output == the specification's canonical layout, idempotent, token-preserving; expand / compact round trip on syntax trees; generated programs, repository examples and mutated byte strings"
+
+
+BOM = b"\xef\xbb\xbf"
+HAND_BYTES = [
+    b"\n" + BOM + b"\n\n$ x = 1\n",
+    b"\n\n  \n" + BOM + b"@ GET /a {\n> 1\n}\n",
+    BOM + BOM + b"> 1\n",
+    b"  \t" + BOM + b"> 1\n",
+    b"\r\n" + BOM + BOM + b"\n" + BOM + b"\n: T {\n a: int\n}\n",
+    BOM + b"\n" + BOM + b"\n",
+    b"\n" + BOM,
+]
 
 
 def replay(ck, data):
